@@ -235,6 +235,9 @@ fn run_one(id: &str, views: u32, s: &Script) -> CaseResult {
         cfg.shallow_clone = s.layout_seed & 1 == 1;
         // one script in eight injects a panic into the payload's Clone (make_mut)
         cfg.clone_panics = match (s.layout_seed >> 8) & 15 { 0 => 1, 1 => 2, _ => 0 };
+        // re-entrant Clone (not together with armed destructor panics: C11)
+        cfg.clone_reentrant = (s.layout_seed >> 14) & 3 == 0 && cfg_id != "C11";
+        cfg.default_ctor = match (s.layout_seed >> 16) & 7 { 0 => 2, 1 | 2 | 3 => 1, _ => 0 };
         crate::exec::set_trace_logging(s.layout_seed & 2 == 2);
         interp::run_script(s, cfg);
     })
